@@ -6,6 +6,7 @@ import importlib
 import json
 import os
 import sys
+import time
 import traceback
 
 from .model import AnalysisError, Program
@@ -21,8 +22,9 @@ def run_property(prop: str, tier: str = "quick", seed: int = 0, overlay=None, wr
         print(f"ANALYSIS-ERROR property={prop} no rule module")
         return 2
     try:
+        t0 = time.time()
         prog = Program(root=root, overlay=overlay)
-        ctx = Ctx(prop, prog, tier=tier, seed=seed, write=write)
+        ctx = Ctx(prop, prog, tier=tier, seed=seed, write=write, t0=t0)
         mod.run(ctx)
         if tier == "thorough" and hasattr(mod, "thorough"):
             mod.thorough(ctx)
